@@ -45,6 +45,12 @@ type vmMMU struct {
 	allocLog []mm.Frame
 	allocN   int
 	allocSeq int // AllocFrame calls answered with a frame since reset (decides what the frame holds)
+	// Physical frame 0 is a frame like any other (the first available region of a PC starts there), but host
+	// page 0 cannot back it. One arena page per case stands in for it: when zeroNext is set the next AllocFrame
+	// answers with frame number 0, and from then on every access to physical page 0 goes to that page.
+	zeroAlias  uintptr
+	zeroNext   bool
+	zeroHanded bool
 	failAt   int // fail the failAt-th AllocFrame call from now (1-based); 0 = never
 	flushLog []uintptr
 	switches int
@@ -86,6 +92,14 @@ func (m *vmMMU) inArena(phys uintptr) bool { return m.arena.Contains(phys, 4096)
 // frameBytes returns the 4 KiB of a physical frame (must be inside the arena).
 func (m *vmMMU) frameBytes(f mm.Frame) []byte { return vlib.BytesAt(f.Address(), 4096) }
 
+// host is the host address that backs a physical address.
+func (m *vmMMU) host(phys uintptr) uintptr {
+	if phys>>12 == 0 && m.zeroHanded {
+		return m.zeroAlias + phys&0xfff
+	}
+	return phys
+}
+
 func (m *vmMMU) allocFrame() (mm.Frame, *kernel.Error) {
 	m.allocN++
 	if m.failAt > 0 {
@@ -93,6 +107,18 @@ func (m *vmMMU) allocFrame() (mm.Frame, *kernel.Error) {
 		if m.failAt == 0 {
 			return mm.InvalidFrame, vmAllocErr
 		}
+	}
+	if m.zeroNext && !m.zeroHanded && m.zeroAlias != 0 {
+		m.zeroNext, m.zeroHanded = false, true
+		b := vlib.BytesAt(m.zeroAlias, 4096)
+		for i := range b {
+			b[i] = vmJunk
+		}
+		for i := uintptr(0); i < 512; i += 3 {
+			*vmEntryAt(m.zeroAlias, i) = uint64(m.arena.Base+(i%uintptr(m.nframes))<<12) | 0x63
+		}
+		m.allocLog = append(m.allocLog, mm.Frame(0))
+		return mm.Frame(0), nil
 	}
 	if m.next >= m.nframes {
 		return mm.InvalidFrame, vmExhaustedErr
@@ -155,10 +181,10 @@ func (m *vmMMU) translate(root uintptr, va uintptr) (phys uintptr, level int, wh
 	table := root
 	ix := vmIndices(va)
 	for lvl := 0; lvl < 4; lvl++ {
-		if !m.inArena(table) {
+		if !m.inArena(m.host(table)) {
 			return 0, lvl, fmt.Sprintf("level-%d table at physical %#x is outside physical memory", lvl, table)
 		}
-		e := *vmEntryAt(table, ix[lvl])
+		e := *vmEntryAt(m.host(table), ix[lvl])
 		if e&vmPresent == 0 {
 			return 0, lvl, "not present"
 		}
@@ -176,19 +202,19 @@ func (m *vmMMU) leafEntry(root uintptr, va uintptr) *uint64 {
 	table := root
 	ix := vmIndices(va)
 	for lvl := 0; lvl < 3; lvl++ {
-		if !m.inArena(table) {
+		if !m.inArena(m.host(table)) {
 			return nil
 		}
-		e := *vmEntryAt(table, ix[lvl])
+		e := *vmEntryAt(m.host(table), ix[lvl])
 		if e&vmPresent == 0 || e&vmHuge != 0 {
 			return nil
 		}
 		table = uintptr(e & vmPhysMask)
 	}
-	if !m.inArena(table) {
+	if !m.inArena(m.host(table)) {
 		return nil
 	}
-	return vmEntryAt(table, ix[3])
+	return vmEntryAt(m.host(table), ix[3])
 }
 
 // missingLevels counts the table levels that do not exist yet on the path to va.
@@ -196,12 +222,12 @@ func (m *vmMMU) missingLevels(root uintptr, va uintptr) int {
 	table := root
 	ix := vmIndices(va)
 	for lvl := 0; lvl < 3; lvl++ {
-		e := *vmEntryAt(table, ix[lvl])
+		e := *vmEntryAt(m.host(table), ix[lvl])
 		if e&vmPresent == 0 {
 			return 3 - lvl
 		}
 		table = uintptr(e & vmPhysMask)
-		if !m.inArena(table) {
+		if !m.inArena(m.host(table)) {
 			return 0
 		}
 	}
@@ -235,7 +261,7 @@ func (m *vmMMU) enumerate(root uintptr) (leaves []vmLeaf, nonPresentNonZero map[
 			if lvl == 0 && i == 511 {
 				continue
 			}
-			e := *vmEntryAt(table, i)
+			e := *vmEntryAt(m.host(table), i)
 			if e == 0 {
 				continue
 			}
@@ -269,7 +295,7 @@ func (m *vmMMU) enumerate(root uintptr) (leaves []vmLeaf, nonPresentNonZero map[
 				}
 			}
 			next := uintptr(e & vmPhysMask)
-			if !m.inArena(next) {
+			if !m.inArena(m.host(next)) {
 				if len(problems) < 5 {
 					problems = append(problems, fmt.Sprintf("level-%d table %#x entry %d points to %#x outside physical memory", lvl, table, i, next))
 				}
@@ -285,7 +311,7 @@ func (m *vmMMU) enumerate(root uintptr) (leaves []vmLeaf, nonPresentNonZero map[
 			rec(next, lvl+1, idx)
 		}
 	}
-	if !m.inArena(root) {
+	if !m.inArena(m.host(root)) {
 		return nil, nil, []string{fmt.Sprintf("root %#x outside physical memory", root)}, 0
 	}
 	rec(root, 0, [4]uintptr{})
@@ -311,8 +337,8 @@ func (m *vmMMU) install() (restore func()) {
 		if entryAddr&7 != 0 {
 			m.problem("misaligned-entry", "page-table entry address %#x is not 8-byte aligned", entryAddr)
 		}
-		m.lastEntryHost = phys
-		return unsafe.Pointer(phys)
+		m.lastEntryHost = m.host(phys)
+		return unsafe.Pointer(m.host(phys))
 	}
 	nextAddrFn = func(arg uintptr) uintptr {
 		// Map computes uintptr(pte) << bits(next level); with the real MMU pte is the
@@ -326,7 +352,7 @@ func (m *vmMMU) install() (restore func()) {
 			m.problem("page-walk-fault", "clearing the new table at virtual %#x faults at level %d (%s)", va, lvl, why)
 			return uintptr(unsafe.Pointer(&m.scratchPage()[0]))
 		}
-		return phys
+		return m.host(phys)
 	}
 	flushTLBEntryFn = func(addr uintptr) { m.flushLog = append(m.flushLog, addr) }
 	activePDTFn = func() uintptr { return m.cr3 }
@@ -342,12 +368,12 @@ func (m *vmMMU) install() (restore func()) {
 		if lvl != 4 || phys != f.Address() {
 			m.problem("temporary-mapping-wrong", "after MapTemporary(frame %#x) the temporary page translates to %#x (levels walked %d)", uint64(f), phys, lvl)
 		}
-		if !m.inArena(f.Address()) {
+		if !m.inArena(m.host(f.Address())) {
 			m.problem("temporary-mapping-outside-memory", "MapTemporary of frame %#x outside physical memory", uint64(f))
 			return mm.Page(uintptr(unsafe.Pointer(&m.scratchPage()[0])) >> 12), nil
 		}
-		m.tempActive, m.tempFrame = true, f
-		return mm.Page(f), nil
+		m.tempActive, m.tempFrame = true, mm.Frame(m.host(f.Address())>>12)
+		return mm.Page(m.host(f.Address()) >> 12), nil
 	}
 	unmapFn = func(pg mm.Page) *kernel.Error {
 		if m.tempActive && pg == mm.Page(m.tempFrame) {
@@ -408,6 +434,7 @@ func (m *vmMMU) reset() {
 	root := m.rawAlloc(0)
 	*vmEntryAt(root.Address(), 511) = uint64(root.Address()) | 3
 	m.cr3 = root.Address()
+	m.zeroAlias = m.rawAlloc(vmJunk).Address()
 }
 
 // newRootRaw builds an address space by hand (used where the property does
